@@ -133,29 +133,29 @@ def onComplete (ops : Rule → WinOps W) (b : Brk W) (now rt : Nat) (err : Bool)
         ({ b1 with st := .opened, nextRetry := now + b.rule.retryMs }, [.toOpen .closed (.stat tot.bad tot.total)])
       else (b1, [])
 
-/-- `checkPass`: new breakers, the id of the blocking breaker (`none` = pass), listener events,
-    ids of the breakers on which this entry registered the rollback hook -/
-def checkPass (res : String) (now : Nat) : List (Brk W) → List (Brk W) × Option Nat × List Ev × List Nat
-  | [] => ([], none, [], [])
+/-- `checkPass`: the breakers after their `TryPass` (each paired with "this entry registered the rollback
+    hook on it"), the id of the blocking breaker (`none` = pass), listener events -/
+def checkPass (res : String) (now : Nat) : List (Brk W) → List (Brk W × Bool) × Option Nat × List Ev
+  | [] => ([], none, [])
   | b :: bs =>
     if b.rule.res = res then
       let r := tryPass b now
       let ev0 := r.2.2.1.map (Ev.mk b.id)
-      let hk0 := if r.2.2.2 then [b.id] else []
       if r.2.1 then
         let q := checkPass res now bs
-        (r.1 :: q.1, q.2.1, ev0 ++ q.2.2.1, hk0 ++ q.2.2.2)
-      else (r.1 :: bs, some b.id, ev0, hk0)
+        ((r.1, r.2.2.2) :: q.1, q.2.1, ev0 ++ q.2.2)
+      else ((r.1, r.2.2.2) :: bs.map (·, false), some b.id, ev0)
     else
       let q := checkPass res now bs
-      (b :: q.1, q.2.1, q.2.2.1, q.2.2.2)
+      ((b, false) :: q.1, q.2.1, q.2.2)
 
-/-- exit hooks of a blocked entry: `if ctx.IsBlocked() && state.cas(HalfOpen, Open) { listeners… }` -/
-def rollback (hooks : List Nat) : List (Brk W) → List (Brk W) × List Ev
+/-- exit hooks of a blocked entry, in registration order:
+    `if ctx.IsBlocked() && state.cas(HalfOpen, Open) { listeners… }` — no deadline, no probe counter -/
+def rollback : List (Brk W × Bool) → List (Brk W) × List Ev
   | [] => ([], [])
-  | b :: bs =>
-    let q := rollback hooks bs
-    if hooks.contains b.id ∧ b.st = .halfOpen then
+  | (b, hk) :: bs =>
+    let q := rollback bs
+    if hk = true ∧ b.st = .halfOpen then
       ({ b with st := .opened } :: q.1, ⟨b.id, .toOpen .halfOpen .rollback⟩ :: q.2)
     else (b :: q.1, q.2)
 
@@ -199,11 +199,13 @@ deriving DecidableEq, Repr
 def doEntry (s : Sys W) (id : Nat) (res : String) : Sys W × Out :=
   let c := checkPass res s.now s.brs
   match c.2.1 with
-  | none => ({ s with brs := c.1, live := ⟨id, res, s.now⟩ :: s.live.filter (·.id ≠ id) }, { dec := some none, evs := c.2.2.1 })
+  | none =>
+    ({ s with brs := c.1.map (·.1), live := ⟨id, res, s.now⟩ :: s.live.filter (·.id ≠ id) },
+     { dec := some none, evs := c.2.2 })
   | some k =>
     -- blocked: `e.Exit()` runs the exit hooks, `OnCompleted` is skipped
-    let rb := rollback c.2.2.2 c.1
-    ({ s with brs := rb.1 }, { dec := some (some k), evs := c.2.2.1 ++ rb.2 })
+    let rb := rollback c.1
+    ({ s with brs := rb.1 }, { dec := some (some k), evs := c.2.2 ++ rb.2 })
 
 /-- `TraceError` (if `err`) and `entry.Exit()`; a second exit / an unknown id does nothing -/
 def doExit (ops : Rule → WinOps W) (s : Sys W) (id : Nat) (err : Bool) : Sys W × Out :=
@@ -261,5 +263,31 @@ def Brk.new (id : Nat) (r : Rule) (now : Nat) : Brk (Arr Cnt) :=
 
 def Brk.newAbs (id : Nat) (r : Rule) : Brk (List (Nat × Cnt)) :=
   { id := id, rule := r, w := [] }
+
+/-! ## the legal transition graph (what the listener log is checked against) -/
+
+def applyTr : St → Tr → Option St
+  | .closed, .toOpen .closed _ => some .opened
+  | .halfOpen, .toOpen .halfOpen _ => some .opened
+  | .opened, .toHalfOpen => some .halfOpen
+  | .halfOpen, .toClosed => some .closed
+  | _, _ => none
+
+/-- follow a list of callbacks of one breaker from state `s`; `none` = some callback is not an edge -/
+def walk : St → List Tr → Option St
+  | s, [] => some s
+  | s, t :: ts => match applyTr s t with
+    | some s' => walk s' ts
+    | none => none
+
+def upd (m : Nat → St) (k : Nat) (s : St) : Nat → St := fun j => if j = k then s else m j
+
+/-- replay a whole listener log on a map `breaker id ↦ state`; `none` = some callback is not a legal edge
+    from the state its breaker had at that point -/
+def replay (m : Nat → St) : List Ev → Option (Nat → St)
+  | [] => some m
+  | e :: es => match applyTr (m e.id) e.tr with
+    | some s' => replay (upd m e.id s') es
+    | none => none
 
 end Sentinel.CB
